@@ -13,6 +13,7 @@ import FendModel.Model.Preview
 import FendModel.Model.XRates
 import FendModel.Model.Cli
 import FendModel.Model.Dist
+import FendModel.Model.UnitLookup
 
 open Fend Fend.Proto
 
@@ -373,6 +374,25 @@ def distLine (line : String) : String :=
       | none => ""
     s!"parts={parts} sorted={srt} mean={mean} total={showRatQ (Fend.Dist.total d)}{rolled}"
 
+/-- the custom units every `unitq` context defines when `custom=1` (same list in the harness) -/
+def customUnits : List Fend.UnitLookup.Entry :=
+  [("florp", "florps", "3 kg"), ("zib", "zibs", "l@!"), ("smoot", "smoots", "s@67 inches"),
+   ("mile", "miles", "l@1852 m"), ("hugo", "", "lp@1000"), ("byteish", "", "=8 bits")]
+
+/-- `cf=<0|1> custom=<0|1> <ident packed hex>` -/
+def unitLookupLine (line : String) : String :=
+  match line.trimAscii.toString.splitOn " " with
+  | [cf, cu, ident] =>
+    match strOfPacked ident with
+    | none => "bad-op"
+    | some ident =>
+      let cfg : Fend.UnitLookup.Cfg := { custom := if cu = "custom=1" then customUnits else [], celsiusFahrenheit := cf = "cf=0" }
+      match Fend.UnitLookup.lookup cfg ident with
+      | .whole e => "whole " ++ packedOfStr e.1
+      | .prefixed a b => "prefixed " ++ packedOfStr a.1 ++ " " ++ packedOfStr b.1
+      | .notFound => "notfound"
+  | _ => "bad-op"
+
 partial def loop (h : IO.FS.Stream) (out : IO.FS.Stream) (f : String → String) : IO Unit := do
   let line ← h.getLine
   if line.isEmpty then return ()
@@ -396,5 +416,6 @@ def main (args : List String) : IO UInt32 := do
   | ["xrates"] => loop stdin stdout xratesLine; return 0
   | ["cliargs"] => loop stdin stdout cliargsLine; return 0
   | ["dist"] => loop stdin stdout distLine; return 0
+  | ["unitlookup"] => loop stdin stdout unitLookupLine; return 0
   | ["clirun"] => loop stdin stdout clirunLine; return 0
   | _ => IO.eprintln "usage: fend_model_driver <stream>"; return 2
